@@ -299,6 +299,7 @@ def Access.ct : Access → Int
 inductive Obs (α : Type)
   | whole (gd : GData α)
   | nth (a : Annot α)
+  deriving DecidableEq
 
 /-- `get_graphic_data` with its side effect: a parsed group decodes with the REQUESTED coordinate type (it does
 not know its own) and keeps the result under that key; once the cache is filled every other type is refused -/
